@@ -585,6 +585,11 @@ class Builder:
                 ae = ("ref", a) if rng.random() < 0.7 else e
                 specs.append(VSpec([self.names.fresh(T)], ("ident", T), [ae]))
                 feats.add("alias")
+                if rng.random() < 0.4:
+                    # a third (and fourth) name of the same value: every alias must stay in ValueMap
+                    for _ in range(rng.choice([1, 1, 2])):
+                        specs.append(VSpec([self.names.fresh(T)], ("ident", T), [("ref", a) if rng.random() < 0.7 else ae]))
+                    feats.add("alias-many")
             if rng.random() < 0.1:
                 specs.append(VSpec(["_"], None, []))
                 feats.add("blank")
